@@ -818,6 +818,23 @@ impl<'a> LineBreaker<'a> {
                                         | Kern(ds::Kern { width, .. }) => *width,
                                     }
                                 }
+                                if discretionary.post_break.is_empty() {
+                                    // TeX.2021.840: with nothing after the break, the nodes
+                                    // that follow are discarded as after any other break.
+                                    for elem in list.get(j..).unwrap_or_default() {
+                                        match elem {
+                                            Math(_math) => {}
+                                            Glue(glue) => {
+                                                diffs.update_from_glue(&glue.value);
+                                            }
+                                            Penalty(_) => {}
+                                            Kern(kern) if kern.kind == ds::KernKind::Explicit => {
+                                                diffs.width += kern.width;
+                                            }
+                                            _ => break,
+                                        }
+                                    }
+                                }
                             }
                             _ => {
                                 // The nodes that are discarded after a break
